@@ -518,6 +518,17 @@ class Ctx:
             print("KNOWN-FINDING: property=%s sig=%s %s (%d scenario(s) in this run)" % (self.prop, sig, f["text"], n))
         for d in self.drift[:5]:
             print("MODEL-DRIFT: property=%s spec=%s sig=%s line=%s %s" % (self.prop, d["spec"], d["sig"], d["line"], d["why"]))
+            # keep the scenario for analysis (a drift is a lead about the I-spec or a hook, not a verdict)
+            try:
+                dd = os.path.join(REPLAYS, "drift")
+                os.makedirs(dd, exist_ok=True)
+                name = "%s-%s-%s.json" % (self.prop, re.sub(r"[^A-Za-z0-9_.-]+", "_", d["sig"])[:60] or "x",
+                                          hashlib.sha1(json.dumps(d.get("lines"), sort_keys=True).encode()).hexdigest()[:8])
+                json.dump(dict(property=self.prop, spec=d["spec"], why=d["why"], sig=d["sig"], seed=self.seed, tier=self.tier,
+                               first_unmatched_line_in_scenario=d.get("first_unmatched"), unmatched_event=d.get("event"),
+                               scenario=d.get("lines")), open(os.path.join(dd, name), "w"), indent=1)
+            except Exception as ex:
+                log("could not keep the drift scenario: %s" % ex)
         rc = 0
         if viol:
             os.makedirs(REPLAYS, exist_ok=True)
